@@ -348,6 +348,9 @@ def run(ctx):
                     tie = tie or 'model and implementation disagree on the configuration: %r' % (d[:2],)
     except core.CoqEvalError as e:
         tie = tie or ('model evaluation failed: ' + str(e)[-1200:])
+    if tie:
+        ctx.notes.append('tie: ' + tie[:600])
+        ctx.log('tie broken: ' + ' '.join(tie.split())[:300])
     if tie and not found:
         ctx.violation('tie-broken', tie[:300], dict(kind='tie', detail=tie, theorem='props/C12.v / Impl correspondence',
                                                      first_disagreement=ctx.coverage.get('first_disagreement')), nofail=True)
